@@ -236,6 +236,33 @@ def op_s1_pack(a):
     return {"raw": hx(raw), "s1": _s1_fields(s), "src": hx(s.source_data)}
 
 
+def op_s1_roundtrip(a):
+    """round trip for ANY accepted PFC (also pfc != 8 x width): same value, same width, same octets; == iff aligned"""
+    s, vp = _s1(a)
+    raw = core.pack_stable(s, "Service1Tm.pack()")
+    step_b, err_b = _widths(vp)
+    s2 = Service1Tm.unpack(raw + unhx(a["suffix"]), _unpack_params(len(unhx(a["timestamp"])), step_b, err_b))
+    back = core.ISOLATION.check("Service1Tm", s2, _s1_fields)
+    if not (s2.tc_req_id == vp.req_id):
+        raise SelfCheckFailure("decoded request id differs from the original")
+    for name, x, y in (("step id", vp.step_id, s2.step_id),
+                       ("error code", None if vp.failure_notice is None else vp.failure_notice.code,
+                        None if s2.failure_notice is None else s2.failure_notice.code)):
+        if (x is None) != (y is None):
+            raise SelfCheckFailure(f"decoded report: {name} present/absent differs from the original")
+        if x is not None and (int(x.val) != int(y.val) or x.len() != y.len()):
+            raise SelfCheckFailure(f"decoded report: {name} has another value or width than the original")
+    if vp.failure_notice is not None and bytes(s2.failure_notice.data) != bytes(vp.failure_notice.data):
+        raise SelfCheckFailure("decoded report: failure data differs from the original")
+    raw2 = core.pack_stable(s2, "Service1Tm.pack() of a decoded report")
+    if raw2 != raw:
+        raise SelfCheckFailure("decoded report re-packs differently")
+    e1, e2 = bool(s2 == s), bool(s == s2)
+    if e1 != e2:
+        raise SelfCheckFailure("Service1Tm == is not symmetric")
+    return {"raw": hx(raw), "back": back, "eq": e1, "repack": hx(raw2)}
+
+
 def op_s1_new(a):
     s, vp = _s1(a)
     raw = core.pack_stable(s, "Service1Tm.pack()")
@@ -313,7 +340,7 @@ OPS = {"req_pack": op_req_pack, "req_unpack": op_req_unpack, "req_eq": op_req_eq
        "pfe_pack": op_pfe_pack, "pfe_with_size": op_pfe_with_size, "pfe_eq": op_pfe_eq,
        "s1_fn_pack": op_fn_pack, "s1_fn_unpack": op_fn_unpack, "s1_fn_eq": op_fn_eq,
        "s1_vp_pack": op_vp_pack, "s1_vp_verify": op_vp_verify,
-       "s1_pack": op_s1_pack, "s1_new": op_s1_new, "s1_eq": op_s1_eq, "s1_create": op_s1_create,
+       "s1_pack": op_s1_pack, "s1_new": op_s1_new, "s1_roundtrip": op_s1_roundtrip, "s1_eq": op_s1_eq, "s1_create": op_s1_create,
        "s1_unpack": op_s1_unpack, "s1_from_tm": op_s1_from_tm}
 
 WIDTHS = [1, 2, 4, 8]
@@ -630,6 +657,15 @@ class C15(Prop):
                             yield Case({"op": "s1_create", "subservice": sub, "apid": rng.randint(0, 2047), "tc": rand_tc(rng),
                                         "step_id": p["step_id"], "failure": p["failure"], "timestamp": hx(rbytes(rng, ts))},
                                        "valid", tag=f"create{sub}")
+        # PFCs that are not 8 x width (accepted by the constructor): the weaker round trip that holds for every
+        # accepted PFC - same value, same width, same octets, == exactly when all PFCs were aligned
+        for sub in range(1, 9):
+            for sw in WIDTHS:
+                for ew in WIDTHS:
+                    for exact in (False, False, True) if thorough else (False, True):
+                        a = s1_args(rng, sub, sw, ew, exact=exact)
+                        a["suffix"] = hx(rbytes(rng, rng.choice([0, 0, 1, 5])))
+                        yield Case({"op": "s1_roundtrip", **a}, "valid", tag="any-pfc" if not exact else "any-pfc-aligned")
         # boundary: the largest source data the 16-bit length field can describe (and one octet less)
         for sub, ts in ((2, 0), (6, 7), (8, 12)):
             for slack in (0, 1):
